@@ -17,6 +17,11 @@ struct Ctx { out: Out }
 #[derive(Clone)]
 struct Shape { ver: KeyVersion, primary: KeyType, pname: &'static str, subs: Vec<(KeyType, bool, &'static str)>, uids: usize, pass: Option<&'static str> }
 
+/// `uids` >= 100 means: no primary user id, `uids - 100` plain user ids (v6 only)
+fn has_primary_uid(sh: &Shape) -> bool { sh.uids >= 1 && sh.uids < 100 }
+fn plain_uids(sh: &Shape) -> usize { if sh.uids >= 100 { sh.uids - 100 } else { sh.uids.saturating_sub(1) } }
+fn total_uids(sh: &Shape) -> usize { if sh.uids >= 100 { sh.uids - 100 } else { sh.uids } }
+
 /// the passphrase of subkey `i`: its own when the name says so, else the shape's
 fn sub_pass(sh: &Shape, i: usize) -> Option<&'static str> { if sh.subs[i].2.ends_with("-ownpw") { Some("subpass") } else { sh.pass } }
 
@@ -72,15 +77,15 @@ impl Ctx {
             p.version(sh.ver).key_type(sh.primary.clone()).can_certify(true).can_sign(true)
                 .preferred_symmetric_algorithms(sym_pref[..].into()).preferred_hash_algorithms(hash_pref[..].into())
                 .preferred_compression_algorithms(comp_pref[..].into()).preferred_aead_algorithms(aead_pref[..].into()).subkeys(subs);
-            if sh.uids >= 1 { p.primary_user_id(format!("primary {seed} <p{seed}@example.org>")); }
-            if sh.uids >= 2 { p.user_ids((1..sh.uids).map(|i| format!("extra {i} <e{i}@example.org>")).collect()); }
+            if has_primary_uid(sh) { p.primary_user_id(format!("primary {seed} <p{seed}@example.org>")); }
+            if plain_uids(sh) >= 1 { p.user_ids((1..=plain_uids(sh)).map(|i| format!("extra {i} <e{i}@example.org>")).collect()); }
             if let Some(pw) = sh.pass { p.passphrase(Some(pw.to_string())); }
             p.build().map_err(|e| e.to_string())?.generate(Rng::new(seed)).map_err(|e| e.to_string())
         });
         let key = match built {
             Ok(Ok(k)) => k,
             // generation may decline only what the format does not allow (here: a v4 key without a user id)
-            Ok(Err(e)) => { let allowed = sh.ver == KeyVersion::V4 && sh.uids == 0; self.out.case("", &[], &rp, &format!("refused: {}", &e[..e.len().min(100)]), Some(allowed), &format!("{cls}-refused")); return; }
+            Ok(Err(e)) => { let allowed = sh.ver == KeyVersion::V4 && !has_primary_uid(sh); self.out.case("", &[], &rp, &format!("refused: {}", &e[..e.len().min(100)]), Some(allowed), &format!("{cls}-refused")); return; }
             Err(p) => { self.out.case("", &[], &rp, &p, Some(false), &format!("{cls}-panic")); return; }
         };
         let pw = Password::from(sh.pass.unwrap_or(""));
@@ -97,7 +102,13 @@ impl Ctx {
         facts.push(("public binary re-import equal", guarded(|| SignedPublicKey::from_bytes(&pbin[..]).map(|k| k == pubk).unwrap_or(false)).unwrap_or(false)));
         let parm = guarded(|| pubk.to_armored_string(ArmorOptions::default()).ok()).ok().flatten().unwrap_or_default();
         facts.push(("public armored re-import equal", guarded(|| SignedPublicKey::from_string(&parm).map(|(k, _)| k == pubk).unwrap_or(false)).unwrap_or(false)));
-        facts.push(("user id count", key.details.users.len() == sh.uids));
+        facts.push(("user id count", key.details.users.len() == total_uids(sh)));
+        // the Primary User ID flag sits on the requested primary user id and on no other
+        {
+            let flagged: Vec<String> = key.details.users.iter().filter(|u| u.signatures.iter().any(|s| s.is_primary())).map(|u| String::from_utf8_lossy(u.id.id()).to_string()).collect();
+            let want: Vec<String> = if has_primary_uid(sh) { vec![format!("primary {seed} <p{seed}@example.org>")] } else { vec![] };
+            facts.push(("primary user id flag exactly where requested", flagged == want));
+        }
         facts.push(("subkey count", key.secret_subkeys.len() == sh.subs.len()));
         // flags and preferences: on the primary user id certification (v4) / direct key signature (v6)
         let pref_sig: Option<&Signature> = if sh.ver == KeyVersion::V6 { key.details.direct_signatures.first() } else { key.details.users.first().and_then(|u| u.signatures.first()) };
@@ -113,7 +124,7 @@ impl Ctx {
             facts.push(("hash preferences", s.preferred_hash_algs() == &hash_pref[..]));
             facts.push(("compression preferences", s.preferred_compression_algs() == &comp_pref[..]));
             if sh.ver == KeyVersion::V6 { facts.push(("aead preferences", s.preferred_aead_algs() == &aead_pref[..])); }
-        } else if sh.uids > 0 || sh.ver == KeyVersion::V6 { facts.push(("self-signature present", false)); }
+        } else if total_uids(sh) > 0 || sh.ver == KeyVersion::V6 { facts.push(("self-signature present", false)); }
         for (i, (sub, spec)) in key.secret_subkeys.iter().zip(sh.subs.iter()).enumerate() {
             let Some(b) = sub.signatures.first() else { facts.push(("subkey binding present", false)); continue; };
             let f = b.key_flags();
@@ -209,6 +220,8 @@ fn main() {
         v.push(Shape { ver: KeyVersion::V6, primary: KeyType::Ed25519, pname: "ed25519", subs: vec![(KeyType::X25519, false, "x25519-stor"), (KeyType::X448, false, "x448-comm")], uids: 1, pass: None });
         v.push(Shape { ver: KeyVersion::V4, primary: KeyType::Rsa(2048), pname: "rsa2048", subs: vec![(KeyType::Rsa(2048), false, "rsa2048")], uids: 1, pass: None });
         v.push(Shape { ver: KeyVersion::V4, primary: KeyType::Dsa(pgp::composed::DsaKeySize::B2048), pname: "dsa", subs: vec![enc4.clone()], uids: 1, pass: None });
+        // no primary user id, plain user ids only (v6)
+        v.push(Shape { ver: KeyVersion::V6, primary: KeyType::Ed25519, pname: "ed25519", subs: vec![(KeyType::X25519, false, "x25519")], uids: 102, pass: None });
         // subkeys locked with a passphrase of their own (the primary unlocked, or locked with another one)
         v.push(Shape { ver: KeyVersion::V4, primary: KeyType::Ed25519Legacy, pname: "eddsa-legacy", subs: vec![(KeyType::ECDH(ECCCurve::Curve25519Legacy), false, "cv25519"), (KeyType::Ed25519Legacy, true, "sign-eddsa-legacy-ownpw")], uids: 1, pass: None });
         v.push(Shape { ver: KeyVersion::V6, primary: KeyType::Ed25519, pname: "ed25519", subs: vec![(KeyType::X25519, false, "x25519-ownpw"), (KeyType::Ed25519, true, "sign-ed25519-ownpw")], uids: 1, pass: Some("pass") });
@@ -241,8 +254,8 @@ fn main() {
                 for (kt, sign, _) in &sh.subs { let mut b = SubkeyParamsBuilder::default(); b.version(sh.ver).key_type(kt.clone()); if *sign { b.can_sign(true); } else { b.can_encrypt(caps_of(sh, subs.len())); } subs.push(b.build().unwrap()); }
                 let mut p = SecretKeyParamsBuilder::default();
                 p.version(sh.ver).key_type(sh.primary.clone()).can_certify(true).can_sign(true).subkeys(subs);
-                if sh.uids >= 1 { p.primary_user_id(format!("primary {seed} <p{seed}@example.org>")); }
-                if sh.uids >= 2 { p.user_ids((1..sh.uids).map(|i| format!("extra {i} <e{i}@example.org>")).collect()); }
+                if has_primary_uid(sh) { p.primary_user_id(format!("primary {seed} <p{seed}@example.org>")); }
+                if plain_uids(sh) >= 1 { p.user_ids((1..=plain_uids(sh)).map(|i| format!("extra {i} <e{i}@example.org>")).collect()); }
                 let Ok(params) = p.build() else { break; };
                 let Ok(key) = params.generate(Rng::new(seed)) else { continue; };
                 let mut kts: Vec<(Vec<u8>, Vec<u8>, PublicKeyAlgorithm, KeyType)> = vec![(key.primary_key.to_bytes().unwrap_or_default(), key.primary_key.public_key().to_bytes().unwrap_or_default(), key.primary_key.algorithm(), sh.primary.clone())];
